@@ -269,10 +269,10 @@ Theorem failed_header_write_before_fix_refuted :
     sc_e_after_reopen s = ROk (fill 9 100).
 Proof. eexists. split; [vm_compute; reflexivity|]. vm_compute. repeat split; reflexivity. Qed.
 
-(* with the fix: the old sector of c stays reserved, e goes elsewhere, nothing of e is lost *)
+(* with the fixes: the allocation of c is undone (old sector marked, new run freed), e goes elsewhere, nothing of e is lost *)
 Theorem failed_header_write_fixed :
   exists s, sc_after C14gen.WriteSector = Some s /\
-    sc_disk_runs s = ((2, 1), (6, 1)) /\
+    sc_disk_runs s = ((2, 1), (4, 1)) /\
     read_sector s 2 0 = ROk (fill 5 100) /\ read_sector s 1 0 = ROk (fill 3 100) /\
     sc_e_after_reopen s = ROk (fill 5 100).
 Proof. eexists. split; [vm_compute; reflexivity|]. vm_compute. repeat split; reflexivity. Qed.
